@@ -53,6 +53,33 @@ def classify(mem, back, out_len):
     return "+".join(shapes) if shapes else "field-mismatch:?"
 
 
+def count_violations(mem):
+    """the representability rules of the property, evaluated on the in-memory JSON (independent of model and tool):
+    per-level block counts, level in the right DM container, exactly one L254 in CM v4.0"""
+    out = []
+    d = mem.get("vdr_dm_data")
+    if not d:
+        return out
+    limits29 = {1: 1, 2: 8, 4: 1, 5: 1, 6: 1, 255: 1}
+    limits40 = {3: 1, 8: 5, 9: 1, 10: 4, 11: 1, 254: 1}
+    for key, lim in (("cmv29_metadata", limits29), ("cmv40_metadata", limits40)):
+        c = d.get(key)
+        if c is None:
+            continue
+        cnt = {}
+        for b in c["ext_metadata_blocks"]:
+            lv = int(list(b)[0][5:])
+            cnt[lv] = cnt.get(lv, 0) + 1
+        for lv, k in cnt.items():
+            if lv not in lim:
+                out.append("%s holds a level %d block" % (key, lv))
+            elif k > lim[lv]:
+                out.append("%s holds %d L%d blocks (max %d)" % (key, k, lv, lim[lv]))
+        if key == "cmv40_metadata" and cnt.get(254, 0) != 1:
+            out.append("cmv40 without exactly one L254 block")
+    return out
+
+
 def run(ctx):
     ctx.rule = ("structured RPUs (all shapes of C01) and the repository's samples, each followed by a random sequence of 0..12 "
                 "public operations (conversions with every mode, crop, active-area offsets, source PQ, scene cut, remove "
@@ -115,6 +142,12 @@ def run(ctx):
                                  "expected": "re-parses", "shape": "emitted-rpu-does-not-reparse"})
             continue
         ctx.nontriv(lines[i])
+        cv = count_violations(mem)
+        if cv:
+            ctx.oracle_fail({"op": "rpu.ops", "input": lines[i][:6000], "written": p[1][:2000],
+                             "observed": "write succeeded although: " + "; ".join(cv[:3]),
+                             "expected": "a write error (metadata not representable)", "shape": "unrepresentable-written"})
+            continue
         if back is None or normalize(mem) != normalize(back):
             shape = classify(mem, back, len(out))
             d = rpucases.diff(normalize(mem), normalize(back)) if back is not None else []
